@@ -65,7 +65,7 @@ static void build_cfg_list(void)
 		for (unsigned i = 0; i < sizeof rs_small / sizeof rs_small[0]; i++) if (rs_small[i][0] + rs_small[i][1] <= exh) add_cfg(codec, m, rs_small[i][0], rs_small[i][1], 0, 0, 0);
 		for (unsigned i = 0; i < sizeof rs_small / sizeof rs_small[0]; i++) if (rs_small[i][0] + rs_small[i][1] > exh) add_cfg(codec, m, rs_small[i][0], rs_small[i][1], 0, 0, 1);
 		for (unsigned i = 0; i < sizeof rs_large / sizeof rs_large[0]; i++) add_cfg(codec, m, rs_large[i][0], rs_large[i][1], 0, 0, 1);
-		if (T) for (int j = 0; j < 12; j++) { uint32_t k = 1 + rng_below(&r, 254); uint32_t rr = 1 + rng_below(&r, 255 - k); add_cfg(codec, m, k, rr, 0, 0, 1); }
+		if (T) for (int j = 0; j < 40; j++) { uint32_t k = 1 + rng_below(&r, 254); uint32_t rr = 1 + rng_below(&r, 255 - k); add_cfg(codec, m, k, rr, 0, 0, 1); }
 	}
 	if (g_pf.codecs & 4) {
 		/* GF(2^4): every 1<=k<n<=15 in thorough (and for C02 always up to the exhaustive bound) */
@@ -112,6 +112,11 @@ static void build_cfg_list(void)
 			}
 		}
 		if (T) { add_cfg(3, 0, 5000, 2500, 5, 1, 1); add_cfg(3, 0, 5000, 5000, 4, 7, 1); }
+		if (!strcmp(g_run.prop, "C04")) {
+			/* staircases longer than 2^12 (and, in thorough, 2^14) equations: the depth of one peeling chain is bounded by n-k only */
+			add_cfg(3, 0, 6000, 6000, 3, 1, 1); add_cfg(3, 0, 1200, 9000, 4, 16807, 1);
+			if (T) { add_cfg(3, 0, 9000, 6000, 5, 2, 1); add_cfg(3, 0, 2000, 20000, 3, 3, 1); add_cfg(3, 0, 20000, 10000, 3, 1, 1); add_cfg(3, 0, 25000, 25000, 3, 5, 1); /* n at the codec limit: tens of thousands of nested calls */ }
+		}
 		if (!strcmp(g_run.prop, "C07") || !strcmp(g_run.prop, "C08") || !strcmp(g_run.prop, "C01")) {
 			/* parameter limits */
 			add_cfg(3, 0, 49997, 3, 3, 1, 1);
@@ -190,6 +195,52 @@ static void run_one(const block_t *b, const uint8_t *inset, uint64_t maskdesc, i
 	if (hi.finish) rep_count(res.complete ? "finish_called_complete_after" : "finish_called_incomplete_after", 1);
 	uint64_t key = hash64(hash64(hash64(h, maskdesc), (uint64_t)c->k << 32 | c->r), ((uint64_t)c->codec << 40) ^ ((uint64_t)c->L << 20) ^ c->N1 ^ ((uint64_t)c->seed << 8) ^ hash_bytes(g_sub, hi.nsub * sizeof *g_sub, hi.nsub));
 	rep_case_done(nontrivial, key, unique && have_mask);
+}
+
+/* C04: a deep peeling chain inside ONE of_decode_with_new_symbol call. All sources but t (a member of equation 0) and a few
+ * sources s_i whose first equation lies deep in the staircase are received; then t arrives and the decoder rebuilds the repair
+ * symbols of equations 0 .. a_1-1 one after the other (recursion depth a_1); then the repair symbol of equation a_1 makes s_1
+ * peelable, the chain runs on to a_2, and so on. The history ends there: the closure holds every source. */
+static void run_chain(const block_t *b, uint64_t h, rng_t *r)
+{
+	const cfg_t *c = &b->c; uint32_t n = b->n, k = c->k; const gf2_sys_t *sy = b->sys;
+	if (!sy || k < 4) return;
+	sub_reserve((size_t)n * 2 + 8);
+	uint32_t t = ~0u, cnt = 0;
+	for (unsigned x = sy->eq_off[0]; x < sy->eq_off[1]; x++) if (sy->eq_sym[x] < k && rng_below(r, ++cnt) == 0) t = sy->eq_sym[x];
+	if (t == ~0u) return;
+	uint32_t nl = 1 + (uint32_t)(h % 3), lost[3], first[3], got = 0;
+	for (int tries = 0; tries < 64 && got < nl; tries++) {
+		/* of 32 candidates keep the one whose first equation is deepest */
+		uint32_t best = ~0u, bestq = 0;
+		for (int q = 0; q < 32; q++) {
+			uint32_t s = rng_below(r, k); if (s == t) continue;
+			uint32_t fe = ~0u; for (unsigned x = sy->sy_off[s]; x < sy->sy_off[s + 1]; x++) if (sy->sy_eq[x] < fe) fe = sy->sy_eq[x];
+			if (fe == 0 || fe == ~0u) continue;
+			if (best == ~0u || fe > bestq) { best = s; bestq = fe; }
+		}
+		if (best == ~0u) continue;
+		int dup = 0; for (uint32_t i = 0; i < got; i++) if (lost[i] == best || first[i] == bestq) dup = 1;
+		if (dup) continue;
+		lost[got] = best; first[got] = bestq; got++;
+	}
+	if (!got) return;
+	for (uint32_t i = 0; i < got; i++) for (uint32_t j = i + 1; j < got; j++) if (first[j] < first[i]) { uint32_t x = first[i]; first[i] = first[j]; first[j] = x; x = lost[i]; lost[i] = lost[j]; lost[j] = x; }
+	uint32_t m = 0;
+	for (uint32_t e = 0; e < k; e++) { int skip = e == t; for (uint32_t i = 0; i < got; i++) if (lost[i] == e) skip = 1; if (!skip) g_sub[m++] = e; }
+	for (uint32_t i = m; i > 1; i--) { uint32_t j = rng_below(r, i); uint32_t x = g_sub[i - 1]; g_sub[i - 1] = g_sub[j]; g_sub[j] = x; }
+	g_sub[m++] = t;
+	for (uint32_t i = 0; i < got; i++) g_sub[m++] = k + first[i];
+	hist_t hi; memset(&hi, 0, sizeof hi);
+	hi.api = 0; hi.finish = 0; hi.cbmode = (h >> 11) % 3 == 0 ? 1 + (int)((h >> 17) % 5) : 0;
+	hi.nsub = m; hi.sub = g_sub; hi.snap_every = n <= 300 ? 1 : (int)((n + 9) / 10);
+	if (!rep_case("chain codec=%s k=%u r=%u L=%u N1=%u seed=%u cb=%d t=%u lost=%u first-equations=%u..%u nsub=%u", codec_name(c), c->k, c->r, c->L, c->N1, c->seed, hi.cbmode, t, got, first[0], first[got - 1], m)) return;
+	hres_t res;
+	run_history(b, &hi, g_pf.mon, &res);
+	rep_count("deep_chain_histories", 1);
+	{ char nm[64]; uint32_t d = first[got - 1]; snprintf(nm, sizeof nm, "deep_chain_depth_%s", d >= 16384 ? "ge_16384" : d >= 4096 ? "ge_4096" : d >= 1024 ? "ge_1024" : d >= 256 ? "ge_256" : "lt_256"); rep_count(nm, 1); }
+	if (res.decoded_it) rep_sample("deep-chain");
+	rep_case_done(1, hash64(h, hash_bytes(g_sub, m * sizeof *g_sub, m)), 0);
 }
 
 int p_codec(void)
@@ -282,6 +333,8 @@ int p_codec(void)
 					run_one(&b, inset, 0, 0, h, &r, 0);
 				}
 			}
+			if ((g_pf.mon & MON_C04) && ce->large && c.codec == 3)
+				for (unsigned s = 0; s < (T ? 24u : 6u); s++) run_chain(&b, hash64(uh, 7000 + s), &r);
 			free(inset);
 			block_free(&b);
 		}
